@@ -1,10 +1,10 @@
 SPECIFICATION HSpec
 CONSTANTS
-  NS = 4
+  NS = 5
   MaxEv = 3
   Clocks = {0,1,2,3}
-  Offsets <- OffsetsStd
-  NL = 2
+  Offsets <- OffsetsZero
+  NL = 1
   Base = 2
   PVariant = "ok"
   MPick = "min"
